@@ -160,3 +160,16 @@ PROPS["C18"] = {
     ],
     "assumptions": ["placeholders inside running-text loops ({{#each}} within one paragraph) are not generated"],
 }
+
+PROPS["C19"] = {
+    "n": {"quick": 900, "thorough": 20000},
+    "per_shard": 60,
+    "corr_targets": ["Corr/MdRenderCorr.vo"],
+    "corr": "Corr/MdRenderCorr.v: Model.MdRender.render on the syntax tree goldmark builds for the text (dumped by the harness with the converter's extensions) vs the paragraphs (style, rule, runs with text and format flags) and tables (cell texts, alignment) of the document Converter.ConvertString returns",
+    "trusted_base": [
+        "goldmark (the parser) is not modelled: its tree is an input of the model; harness/mdast.go configures it like markdown.NewConverter and resolves escapes and entities of text nodes the way renderer.go textValue does",
+        "Model/MdRender.v is hand-written from renderer.go; headings are compared by text and style only (the direct formatting AddHeadingParagraph applies per level is not modelled); formulas are excluded from the correspondence (their display text is produced by a LaTeX rewriting that is not modelled)",
+        "totality on arbitrary bytes under every option combination is searched (noise stream, recover), not proved",
+    ],
+    "assumptions": ["fidelity is judged with tables enabled; task-list check marks and ordered-list numbers are not rendered by the converter (the item text is)"],
+}
